@@ -13,17 +13,20 @@ import (
 	"time"
 	_ "time/tzdata"
 
+	"github.com/spf13/afero"
 	mozilla "go.mozilla.org/pkcs7"
 	"pgregory.net/rapid"
 
 	"github.com/foxboron/go-uefi/efi/attributes"
 	"github.com/foxboron/go-uefi/efi/signature"
 	"github.com/foxboron/go-uefi/efivar"
+	"github.com/foxboron/go-uefi/efivarfs"
 
 	"verifharness/adapt"
 	"verifharness/gen"
 	"verifharness/hx"
 	"verifharness/ossl"
+	"verifharness/recfs"
 	"verifharness/ref/authvar"
 	"verifharness/ref/cms"
 	"verifharness/ref/der"
@@ -32,17 +35,18 @@ import (
 )
 
 type Case struct {
-	Name    string
-	GUID    hx.Hex // 16 bytes, big-endian fields
-	Attrs   uint32
-	Payload hx.Hex
-	Key     int
-	Cert    hx.Hex
-	TZMin   int    // offset of the process time zone from UTC in minutes
-	Zone    string // when set: the process time zone is this named zone (one with daylight saving rules) instead of a fixed offset
-	OpenSSL bool   // also ask the openssl CLI
-	Slow    bool   // the signer answers only after the wall clock has moved on to the next second (HSM / smartcard)
-	Failed  bool   // an update whose signer fails is attempted first (unplugged token), then the real one
+	Name     string
+	GUID     hx.Hex // 16 bytes, big-endian fields
+	Attrs    uint32
+	Payload  hx.Hex
+	Key      int
+	Cert     hx.Hex
+	TZMin    int    // offset of the process time zone from UTC in minutes
+	Validity int    // 0: the signing certificate is valid now; 1: expired; 2: not yet valid
+	Zone     string // when set: the process time zone is this named zone (one with daylight saving rules) instead of a fixed offset
+	OpenSSL  bool   // also ask the openssl CLI
+	Slow     bool   // the signer answers only after the wall clock has moved on to the next second (HSM / smartcard)
+	Failed   bool   // an update whose signer fails is attempted first (unplugged token), then the real one
 }
 
 type brokenSigner struct{ crypto.Signer }
@@ -119,6 +123,15 @@ func genCase(t *rapid.T) Case {
 			id = gen.FixedIdents()[id.Key%4]
 		}
 	}
+	if id.Key >= 0 && rapid.IntRange(0, 4).Draw(t, "validity") == 0 {
+		// Secure Boot keys are routinely used past their certificate's end date (and prepared before its start)
+		c.Validity = rapid.IntRange(1, 2).Draw(t, "validitykind")
+		if vid, err := gen.WithValidity(id, c.Validity); err == nil {
+			id = vid
+		} else {
+			c.Validity = 0
+		}
+	}
 	c.Key, c.Cert = id.Key, id.Cert.Raw
 	if rapid.IntRange(0, 3).Draw(t, "utc") != 0 {
 		c.TZMin = 15 * rapid.IntRange(-48, 56).Draw(t, "tzquarters")
@@ -149,7 +162,36 @@ func wrap(bare []byte) []byte {
 	return der.Seq(der.OID(cms.OIDSignedData...), der.CtxC(0, n)).Encode()
 }
 
+// validityOutside is set while a case runs whose signing certificate is expired or not yet valid:
+// go.mozilla.org/pkcs7 refuses those as a matter of policy (signing time outside the validity period), so the verdict
+// then comes from the reference verifier alone.
+var validityOutside bool
+
 func mozillaDetached(bare, content []byte) error {
+	if validityOutside {
+		sd, err := cms.Parse(wrap(bare))
+		if err != nil {
+			return fmt.Errorf("reference parse: %v", err)
+		}
+		want := sha256.Sum256(content)
+		for _, sg := range sd.Signers {
+			for _, c := range sd.CertList() {
+				if !sg.Names(c) {
+					continue
+				}
+				if v := sd.Accepts(c); !v.OK {
+					return fmt.Errorf("reference verifier: %s", v.Reason)
+				}
+				for _, md := range sg.AttrValues(cms.OIDMessageDigest) {
+					if bytes.Equal(md.RawValue(), want[:]) {
+						return nil
+					}
+				}
+				return fmt.Errorf("reference verifier: signed message digest is not SHA-256 of the buffer")
+			}
+		}
+		return fmt.Errorf("reference verifier: no signer with an embedded certificate")
+	}
 	p, err := mozilla.Parse(wrap(bare))
 	if err != nil {
 		return fmt.Errorf("parse: %v", err)
@@ -161,6 +203,11 @@ func mozillaDetached(bare, content []byte) error {
 func checkCase(c Case) error {
 	if len(c.GUID) != 16 {
 		return fmt.Errorf("bad case: GUID")
+	}
+	validityOutside = c.Validity != 0
+	defer func() { validityOutside = false }()
+	if c.Validity != 0 {
+		hx.Class("signing_certificate_expired_or_not_yet_valid")
 	}
 	id, err := gen.ParseIdent(c.Key, c.Cert)
 	if err != nil {
@@ -340,6 +387,41 @@ func checkCase(c Case) error {
 	}
 	if ok, err := auth.Verify(id.Cert); !ok || err != nil {
 		return fmt.Errorf("returned descriptor does not verify against the signing certificate: %v %v", ok, err)
+	}
+	// --- the same update through the variable store API (WriteSignedUpdate), onto a variable that already holds
+	// these very entries: what is signed and written is the payload that was given, not a function of what is there
+	if dbp, isDB := m.(*signature.SignatureDatabase); isDB && len(payload) > 0 {
+		payload := append([]byte{}, dbp.Bytes()...) // (the database as it is now: an entry was added to it above)
+		mem := afero.NewMemMapFs()
+		vpath := attributes.Efivars + "/" + c.Name + "-" + g.Text()
+		afero.WriteFile(mem, vpath, append(binary.LittleEndian.AppendUint32(nil, c.Attrs&^uint32(attributes.EFI_VARIABLE_APPEND_WRITE)), payload...), 0644)
+		rec := recfs.New(mem, "MemMapFS")
+		store := efivarfs.NewFS()
+		store.SetFS(rec)
+		if err := store.Open().WriteSignedUpdate(v, dbp, id.Priv(), id.Cert); err != nil {
+			return fmt.Errorf("WriteSignedUpdate fails on a working file system: %v", err)
+		}
+		var written []byte
+		for _, e := range rec.Events() {
+			if e.Op == "File.Write" && e.Path == vpath {
+				written = append(written, e.Data...)
+			}
+		}
+		if len(written) < 4 || binary.LittleEndian.Uint32(written) != c.Attrs {
+			return fmt.Errorf("WriteSignedUpdate wrote %d bytes that do not start with the attribute mask %#x", len(written), c.Attrs)
+		}
+		d2, n2, err := authvar.DecodeAuth2(written[4:])
+		if err != nil {
+			return fmt.Errorf("WriteSignedUpdate did not write a descriptor behind the attributes: %v", err)
+		}
+		if !bytes.Equal(written[4+n2:], payload) {
+			return fmt.Errorf("WriteSignedUpdate onto a variable that already holds the entries wrote a %d-byte payload, the update given has %d bytes", len(written)-4-n2, len(payload))
+		}
+		buf2 := append(append(append(append(utf16le(c.Name), g.Wire()...), binary.LittleEndian.AppendUint32(nil, c.Attrs)...), d2.Time[:]...), payload...)
+		if err := mozillaDetached(d2.CertData, buf2); err != nil {
+			return fmt.Errorf("the update written by WriteSignedUpdate is not signed over name || GUID || attributes || its timestamp || the payload given: %v", err)
+		}
+		hx.Class("route/WriteSignedUpdate_onto_existing_entries")
 	}
 	return nil
 }
